@@ -66,7 +66,7 @@ class IndependentSphere(Autocorrelation):
         volume_sphere = 4.0 / 3 * np.pi * self.radius**3
 
         bessel_term = np.empty_like(X)
-        zero_X = np.isclose(X, 0)
+        zero_X = np.isclose(X, 0, atol=1e-3)  # below, (sin X - X cos X) / X**3 suffers from cancellation
         non_zero_X = np.logical_not(zero_X)
         X_non_zero = X[non_zero_X]
 
